@@ -341,7 +341,7 @@ def work_mirror(bins, cases):
 
 def run(ctx):
     quick = ctx.tier == "quick"
-    per = 1000 if quick else 12000
+    per = 1000 if quick else 48000
     res = core.pmap(work, [(ctx.bins, "%s/%d/%d" % (ctx.prop, ctx.seed, i), per) for i in range(32)])
     merged = {}
     for r in res:
@@ -359,7 +359,7 @@ def run(ctx):
                            dict(branch=key[0], length=key[1]))
             merged[key] = h
     rng = ctx.sub_rng("lengths")
-    names = sorted(set(BRANCHES + [rand_branch(rng) for _ in range(200 if quick else 3000)]))
+    names = sorted(set(BRANCHES + [rand_branch(rng) for _ in range(200 if quick else 10000)]))
     names = [b for b in names if "\x00" not in b and not b.endswith("/")]
     for r in core.pmap(work_lengths, [(ctx.bins, p) for p in core.split_even(names, 16)]):
         ctx.evaluations += r["n"]
@@ -374,7 +374,7 @@ def run(ctx):
             merged[key] = h
     ctx.count("distinct_branch_length_pairs_hashed", len(merged))
     mrng = ctx.sub_rng("mirror")
-    cases = [gen_case(mrng) for _ in range(120 if quick else 2500)]
+    cases = [gen_case(mrng) for _ in range(120 if quick else 8000)]
     nd = 0
     for r in core.pmap(work_mirror, [(ctx.bins, p) for p in core.split_even(cases, 16)]):
         ctx.count("probe_vs_binary_mirrored", r["n"])
